@@ -1,5 +1,5 @@
 (* C02 — no session unless the BMC proves knowledge of the password. *)
-From BMC Require Import Base Prim Layers Layers2 Serialize Packet Conn Hmac Handshake HandshakeProofs.
+From BMC Require Import Base Prim Layers Layers2 Serialize Packet Conn Hmac Handshake HandshakeProofs HandshakeReject.
 
 (* whatever was received in the three exchanges (any scripts: retransmissions, garbage, truncations ...), if a
    session is returned then: all three replies decoded, with tag 0 and status OK; the RAKP 2 code received IS the
@@ -24,6 +24,218 @@ Theorem C02_sound : forall o s random sc1 sc2 sc3 sent e,
     (es_local_id e = os_console_id rsp /\ es_remote_id e = os_bmc_id rsp) /\
     (es_suite e = s /\ su_conf s = 1 /\ su_integ s <> 0).
 Proof. exact new_session_ok_inv. Qed.
+
+
+(* ---- the rejection side, with the exact outcome.  [exchange ptype payload script k = (sent, inl p)]: the k-th exchange
+   delivered payload p (after whatever retransmissions the script caused).  Each theorem: everything before the
+   offending reply was in order, the offending reply is as described, and the result is the stated error - never a
+   session - with nothing transmitted after it. ---- *)
+(* an undecodable (e.g. truncated) Open Session Response *)
+Theorem C02_osr_undecodable :
+  forall (o : session_opts) (s : suite) (random : bytes) (sc1 sc2 sc3 : list (option bytes)) (sent1 : list bytes) (p1 : bytes),
+  exchange 16 (ser_opensessionreq (open_request o s) []) sc1 1 = (sent1, inl p1) ->
+  decode_opensessionrsp opensessionrsp_zero p1 = Err -> new_session o s random sc1 sc2 sc3 = (sent1, inr (EDecode 1)).
+Proof. exact osr_undecodable. Qed.
+(* a mismatched tag in the Open Session Response *)
+Theorem C02_osr_bad_tag :
+  forall (o : session_opts) (s : suite) (random : bytes) (sc1 sc2 sc3 : list (option bytes)) (sent1 : list bytes) (p1 : bytes),
+  exchange 16 (ser_opensessionreq (open_request o s) []) sc1 1 = (sent1, inl p1) ->
+  forall rsp : opensessionrsp,
+  decode_opensessionrsp opensessionrsp_zero p1 = Ok rsp -> os_tag rsp <> 0 -> new_session o s random sc1 sc2 sc3 = (sent1, inr (ETag 1)).
+Proof. exact osr_bad_tag. Qed.
+(* a non-OK status in the Open Session Response *)
+Theorem C02_osr_bad_status :
+  forall (o : session_opts) (s : suite) (random : bytes) (sc1 sc2 sc3 : list (option bytes)) (sent1 : list bytes) (p1 : bytes),
+  exchange 16 (ser_opensessionreq (open_request o s) []) sc1 1 = (sent1, inl p1) ->
+  forall rsp : opensessionrsp,
+  decode_opensessionrsp opensessionrsp_zero p1 = Ok rsp ->
+  os_tag rsp = 0 -> os_status rsp <> 0 -> new_session o s random sc1 sc2 sc3 = (sent1, inr (EStatus 1)).
+Proof. exact osr_bad_status. Qed.
+(* an undecodable (e.g. truncated) RAKP Message 2 *)
+Theorem C02_rakp2_undecodable :
+  forall (o : session_opts) (s : suite) (random : bytes) (sc1 sc2 sc3 : list (option bytes)) (sent1 : list bytes) (p1 : bytes),
+  exchange 16 (ser_opensessionreq (open_request o s) []) sc1 1 = (sent1, inl p1) ->
+  forall rsp : opensessionrsp,
+  decode_opensessionrsp opensessionrsp_zero p1 = Ok rsp ->
+  os_tag rsp = 0 ->
+  os_status rsp = 0 ->
+  suite_eqb {| su_auth := ap_alg (os_auth rsp); su_integ := ap_alg (os_integ rsp); su_conf := ap_alg (os_conf rsp) |} s = true ->
+  forall (sent2 : list bytes) (p2 : bytes),
+  exchange 18 (ser_rakp1 (rakp1_request o rsp random) []) sc2 2 = (sent2, inl p2) ->
+  decode_rakp2 rakp2_zero p2 = Err -> new_session o s random sc1 sc2 sc3 = (sent1 ++ sent2, inr (EDecode 2)).
+Proof. exact rakp2_undecodable. Qed.
+(* a mismatched tag in RAKP Message 2 *)
+Theorem C02_rakp2_bad_tag :
+  forall (o : session_opts) (s : suite) (random : bytes) (sc1 sc2 sc3 : list (option bytes)) (sent1 : list bytes) (p1 : bytes),
+  exchange 16 (ser_opensessionreq (open_request o s) []) sc1 1 = (sent1, inl p1) ->
+  forall rsp : opensessionrsp,
+  decode_opensessionrsp opensessionrsp_zero p1 = Ok rsp ->
+  os_tag rsp = 0 ->
+  os_status rsp = 0 ->
+  suite_eqb {| su_auth := ap_alg (os_auth rsp); su_integ := ap_alg (os_integ rsp); su_conf := ap_alg (os_conf rsp) |} s = true ->
+  forall (sent2 : list bytes) (p2 : bytes),
+  exchange 18 (ser_rakp1 (rakp1_request o rsp random) []) sc2 2 = (sent2, inl p2) ->
+  forall m2 : rakp2, decode_rakp2 rakp2_zero p2 = Ok m2 -> r2_tag m2 <> 0 -> new_session o s random sc1 sc2 sc3 = (sent1 ++ sent2, inr (ETag 2)).
+Proof. exact rakp2_bad_tag. Qed.
+(* a non-OK status in RAKP Message 2 *)
+Theorem C02_rakp2_bad_status :
+  forall (o : session_opts) (s : suite) (random : bytes) (sc1 sc2 sc3 : list (option bytes)) (sent1 : list bytes) (p1 : bytes),
+  exchange 16 (ser_opensessionreq (open_request o s) []) sc1 1 = (sent1, inl p1) ->
+  forall rsp : opensessionrsp,
+  decode_opensessionrsp opensessionrsp_zero p1 = Ok rsp ->
+  os_tag rsp = 0 ->
+  os_status rsp = 0 ->
+  suite_eqb {| su_auth := ap_alg (os_auth rsp); su_integ := ap_alg (os_integ rsp); su_conf := ap_alg (os_conf rsp) |} s = true ->
+  forall (sent2 : list bytes) (p2 : bytes),
+  exchange 18 (ser_rakp1 (rakp1_request o rsp random) []) sc2 2 = (sent2, inl p2) ->
+  forall m2 : rakp2,
+  decode_rakp2 rakp2_zero p2 = Ok m2 ->
+  r2_tag m2 = 0 -> r2_status m2 <> 0 -> new_session o s random sc1 sc2 sc3 = (sent1 ++ sent2, inr (EStatus 2)).
+Proof. exact rakp2_bad_status. Qed.
+(* a RAKP 2 code that is not the keyed hash of the exchanged values: exactly the incorrect-password error, and RAKP 3 is never sent *)
+Theorem C02_rakp2_wrong_code :
+  forall (o : session_opts) (s : suite) (random : bytes) (sc1 sc2 sc3 : list (option bytes)) (sent1 : list bytes) (p1 : bytes),
+  exchange 16 (ser_opensessionreq (open_request o s) []) sc1 1 = (sent1, inl p1) ->
+  forall rsp : opensessionrsp,
+  decode_opensessionrsp opensessionrsp_zero p1 = Ok rsp ->
+  os_tag rsp = 0 ->
+  os_status rsp = 0 ->
+  suite_eqb {| su_auth := ap_alg (os_auth rsp); su_integ := ap_alg (os_integ rsp); su_conf := ap_alg (os_conf rsp) |} s = true ->
+  forall (sent2 : list bytes) (p2 : bytes),
+  exchange 18 (ser_rakp1 (rakp1_request o rsp random) []) sc2 2 = (sent2, inl p2) ->
+  forall m2 : rakp2,
+  decode_rakp2 rakp2_zero p2 = Ok m2 ->
+  r2_tag m2 = 0 ->
+  r2_status m2 = 0 ->
+  forall (h : N) (icvlen : nat),
+  auth_params (ap_alg (os_auth rsp)) = Some (h, icvlen) ->
+  r2_authcode m2 <> hmac_alg h (so_password o) (rakp2_authcode_input (rakp1_request o rsp random) m2) ->
+  new_session o s random sc1 sc2 sc3 = (sent1 ++ sent2, inr EIncorrectPassword).
+Proof. exact rakp2_wrong_code. Qed.
+(* an undecodable (e.g. truncated) RAKP Message 4 *)
+Theorem C02_rakp4_undecodable :
+  forall (o : session_opts) (s : suite) (random : bytes) (sc1 sc2 sc3 : list (option bytes)) (sent1 : list bytes) (p1 : bytes),
+  exchange 16 (ser_opensessionreq (open_request o s) []) sc1 1 = (sent1, inl p1) ->
+  forall rsp : opensessionrsp,
+  decode_opensessionrsp opensessionrsp_zero p1 = Ok rsp ->
+  os_tag rsp = 0 ->
+  os_status rsp = 0 ->
+  suite_eqb {| su_auth := ap_alg (os_auth rsp); su_integ := ap_alg (os_integ rsp); su_conf := ap_alg (os_conf rsp) |} s = true ->
+  forall (sent2 : list bytes) (p2 : bytes),
+  exchange 18 (ser_rakp1 (rakp1_request o rsp random) []) sc2 2 = (sent2, inl p2) ->
+  forall m2 : rakp2,
+  decode_rakp2 rakp2_zero p2 = Ok m2 ->
+  r2_tag m2 = 0 ->
+  r2_status m2 = 0 ->
+  forall (h : N) (icvlen : nat),
+  auth_params (ap_alg (os_auth rsp)) = Some (h, icvlen) ->
+  r2_authcode m2 = hmac_alg h (so_password o) (rakp2_authcode_input (rakp1_request o rsp random) m2) ->
+  forall (sent3 : list bytes) (p3 : bytes),
+  exchange 20
+    (ser_rakp3
+       {|
+         r3_tag := 0;
+         r3_status := 0;
+         r3_bmc_id := os_bmc_id rsp;
+         r3_authcode := hmac_alg h (so_password o) (rakp3_authcode_input (rakp1_request o rsp random) m2)
+       |} []) sc3 3 = (sent3, inl p3) ->
+  decode_rakp4 rakp4_zero p3 = Err -> new_session o s random sc1 sc2 sc3 = (sent1 ++ sent2 ++ sent3, inr (EDecode 3)).
+Proof. exact rakp4_undecodable. Qed.
+(* a mismatched tag in RAKP Message 4 *)
+Theorem C02_rakp4_bad_tag :
+  forall (o : session_opts) (s : suite) (random : bytes) (sc1 sc2 sc3 : list (option bytes)) (sent1 : list bytes) (p1 : bytes),
+  exchange 16 (ser_opensessionreq (open_request o s) []) sc1 1 = (sent1, inl p1) ->
+  forall rsp : opensessionrsp,
+  decode_opensessionrsp opensessionrsp_zero p1 = Ok rsp ->
+  os_tag rsp = 0 ->
+  os_status rsp = 0 ->
+  suite_eqb {| su_auth := ap_alg (os_auth rsp); su_integ := ap_alg (os_integ rsp); su_conf := ap_alg (os_conf rsp) |} s = true ->
+  forall (sent2 : list bytes) (p2 : bytes),
+  exchange 18 (ser_rakp1 (rakp1_request o rsp random) []) sc2 2 = (sent2, inl p2) ->
+  forall m2 : rakp2,
+  decode_rakp2 rakp2_zero p2 = Ok m2 ->
+  r2_tag m2 = 0 ->
+  r2_status m2 = 0 ->
+  forall (h : N) (icvlen : nat),
+  auth_params (ap_alg (os_auth rsp)) = Some (h, icvlen) ->
+  r2_authcode m2 = hmac_alg h (so_password o) (rakp2_authcode_input (rakp1_request o rsp random) m2) ->
+  forall (sent3 : list bytes) (p3 : bytes),
+  exchange 20
+    (ser_rakp3
+       {|
+         r3_tag := 0;
+         r3_status := 0;
+         r3_bmc_id := os_bmc_id rsp;
+         r3_authcode := hmac_alg h (so_password o) (rakp3_authcode_input (rakp1_request o rsp random) m2)
+       |} []) sc3 3 = (sent3, inl p3) ->
+  forall m4 : rakp4,
+  decode_rakp4 rakp4_zero p3 = Ok m4 -> r4_tag m4 <> 0 -> new_session o s random sc1 sc2 sc3 = (sent1 ++ sent2 ++ sent3, inr (ETag 3)).
+Proof. exact rakp4_bad_tag. Qed.
+(* a non-OK status in RAKP Message 4 *)
+Theorem C02_rakp4_bad_status :
+  forall (o : session_opts) (s : suite) (random : bytes) (sc1 sc2 sc3 : list (option bytes)) (sent1 : list bytes) (p1 : bytes),
+  exchange 16 (ser_opensessionreq (open_request o s) []) sc1 1 = (sent1, inl p1) ->
+  forall rsp : opensessionrsp,
+  decode_opensessionrsp opensessionrsp_zero p1 = Ok rsp ->
+  os_tag rsp = 0 ->
+  os_status rsp = 0 ->
+  suite_eqb {| su_auth := ap_alg (os_auth rsp); su_integ := ap_alg (os_integ rsp); su_conf := ap_alg (os_conf rsp) |} s = true ->
+  forall (sent2 : list bytes) (p2 : bytes),
+  exchange 18 (ser_rakp1 (rakp1_request o rsp random) []) sc2 2 = (sent2, inl p2) ->
+  forall m2 : rakp2,
+  decode_rakp2 rakp2_zero p2 = Ok m2 ->
+  r2_tag m2 = 0 ->
+  r2_status m2 = 0 ->
+  forall (h : N) (icvlen : nat),
+  auth_params (ap_alg (os_auth rsp)) = Some (h, icvlen) ->
+  r2_authcode m2 = hmac_alg h (so_password o) (rakp2_authcode_input (rakp1_request o rsp random) m2) ->
+  forall (sent3 : list bytes) (p3 : bytes),
+  exchange 20
+    (ser_rakp3
+       {|
+         r3_tag := 0;
+         r3_status := 0;
+         r3_bmc_id := os_bmc_id rsp;
+         r3_authcode := hmac_alg h (so_password o) (rakp3_authcode_input (rakp1_request o rsp random) m2)
+       |} []) sc3 3 = (sent3, inl p3) ->
+  forall m4 : rakp4,
+  decode_rakp4 rakp4_zero p3 = Ok m4 ->
+  r4_tag m4 = 0 -> r4_status m4 <> 0 -> new_session o s random sc1 sc2 sc3 = (sent1 ++ sent2 ++ sent3, inr (EStatus 3)).
+Proof. exact rakp4_bad_status. Qed.
+(* an ICV that is not the (truncated) keyed hash under the SIK *)
+Theorem C02_rakp4_wrong_icv :
+  forall (o : session_opts) (s : suite) (random : bytes) (sc1 sc2 sc3 : list (option bytes)) (sent1 : list bytes) (p1 : bytes),
+  exchange 16 (ser_opensessionreq (open_request o s) []) sc1 1 = (sent1, inl p1) ->
+  forall rsp : opensessionrsp,
+  decode_opensessionrsp opensessionrsp_zero p1 = Ok rsp ->
+  os_tag rsp = 0 ->
+  os_status rsp = 0 ->
+  suite_eqb {| su_auth := ap_alg (os_auth rsp); su_integ := ap_alg (os_integ rsp); su_conf := ap_alg (os_conf rsp) |} s = true ->
+  forall (sent2 : list bytes) (p2 : bytes),
+  exchange 18 (ser_rakp1 (rakp1_request o rsp random) []) sc2 2 = (sent2, inl p2) ->
+  forall m2 : rakp2,
+  decode_rakp2 rakp2_zero p2 = Ok m2 ->
+  r2_tag m2 = 0 ->
+  r2_status m2 = 0 ->
+  forall (h : N) (icvlen : nat),
+  auth_params (ap_alg (os_auth rsp)) = Some (h, icvlen) ->
+  r2_authcode m2 = hmac_alg h (so_password o) (rakp2_authcode_input (rakp1_request o rsp random) m2) ->
+  forall (sent3 : list bytes) (p3 : bytes),
+  exchange 20
+    (ser_rakp3
+       {|
+         r3_tag := 0;
+         r3_status := 0;
+         r3_bmc_id := os_bmc_id rsp;
+         r3_authcode := hmac_alg h (so_password o) (rakp3_authcode_input (rakp1_request o rsp random) m2)
+       |} []) sc3 3 = (sent3, inl p3) ->
+  forall m4 : rakp4,
+  decode_rakp4 rakp4_zero p3 = Ok m4 ->
+  r4_tag m4 = 0 ->
+  r4_status m4 = 0 ->
+  let sik := hmac_alg h (if (length (so_kg o) =? 0)%nat then so_password o else so_kg o) (sik_input (rakp1_request o rsp random) m2) in
+  r4_icv m4 <> icv_of h icvlen sik (rakp1_request o rsp random) m2 -> new_session o s random sc1 sc2 sc3 = (sent1 ++ sent2 ++ sent3, inr EICV).
+Proof. exact rakp4_wrong_icv. Qed.
 
 (* non-vacuity is C01 (a conforming BMC does get a session); the hashed byte strings, in the code's order *)
 Example C02_rakp2_input_layout : forall r1 r2,
